@@ -28,5 +28,8 @@ Chain5 == { {{1,2},{2,3},{3,4},{5,4}} }
 Fork4 == { {{1,2},{1,3},{3,4}} }
 Path4 == { {{1,2},{2,3},{3,4}} }
 
+\* every node has heard of every underlay (table answers wherever a usable path is stored)
+HeardAll == Node \X Node
+
 DesignView == <<links, everlinks, st, parked, net, nsent, nfinds, ninjects, nexp, nloss, nlink>>
 =============================================================================
